@@ -451,7 +451,7 @@ func vgProduce(op vgOp, plane *Plane) *vgProduct {
 		defer func() { p.pv = recover() }()
 		switch op.Op {
 		case "SignEFIVariable":
-			mine := &mutVal{b: append([]byte(nil), payload...)}
+			mine := &mutVal{b: append([]byte(nil), payload...), odd: op.Key%3 == 1 && op.Reuse}
 			_, mm, e2 := signature.SignEFIVariable(v, mine, signer, pk.Cert)
 			p.err = e2
 			if mm != nil && e2 == nil && op.Reuse {
